@@ -112,6 +112,7 @@ func (i *interpreter) loadPtr(fr *frame, instr *ssa.UnOp, x value) value {
 		if p == nil {
 			fr.nilPanic(instr)
 		}
+		i.raceAccess(fr, p, mustDeref(instr.X.Type()), false, instr.Pos())
 		return load(mustDeref(instr.X.Type()), p)
 	case *symref:
 		return selectElem(p.elems, p.idx, p.k)
@@ -128,6 +129,7 @@ func (i *interpreter) storePtr(fr *frame, instr *ssa.Store, a, v value) {
 		if p == nil {
 			fr.nilPanic(instr)
 		}
+		i.raceAccess(fr, p, mustDeref(instr.Addr.Type()), true, instr.Pos())
 		store(mustDeref(instr.Addr.Type()), p, v)
 	case *symref:
 		for j := range p.elems {
